@@ -252,6 +252,10 @@ func (e *specEnv) evalIdent(s *SpecExpr) (Term, types.Type) {
 			if e.loop.idx != nil {
 				return *e.loop.idx, types.Typ[types.Int]
 			}
+		case "$outeri":
+			if e.loop.outer != nil && e.loop.outer.idx != nil {
+				return *e.loop.outer.idx, types.Typ[types.Int]
+			}
 		case "$key":
 			if e.loop.key != nil {
 				return *e.loop.key, e.loop.keyT
